@@ -145,8 +145,8 @@ void StatementBuilder::struct_field(const char* name)
     type_t type = typeFragments[0];
     typeFragments.pop();
 
-    // Constant fields are not allowed
-    if (type.is(CONSTANT)) {
+    // Constant fields are not allowed (is_constant() also sees an array of constants, which is(CONSTANT) does not)
+    if (type.is(CONSTANT) || type.is_constant()) {
         handle_error(TypeException{"$Constant_fields_not_allowed_in_struct"});
     }
 
